@@ -101,7 +101,7 @@ def run_case(prop_id, case_json, seed, active_known):
                 try:
                     fn(hx, **case.params)
                     # vacuity twin: the end of this path must be reachable (pc satisfiable) for each class it marks
-                    for lab in hx.path_covers or ["end"]:
+                    for lab in hx.path_covers + ["end"]:
                         if lab not in hx.covers:
                             m = ex.witness()
                             if m is not None:
